@@ -33,6 +33,44 @@ CLASSES = ['BaseException', 'Exception', 'ValueError', 'LookupError', 'KeyError'
            'GeneratorExit']
 CLS_NO = {n: i for i, n in enumerate(CLASSES)}
 PYCLS = {n: getattr(__import__('builtins'), n) for n in CLASSES}
+# Python 3.11+ exception groups.  isinstance() looks at the group object only; what the group CONTAINS must not matter.
+HAVE_GROUPS = hasattr(__import__('builtins'), 'BaseExceptionGroup')
+GROUP_CLASSES = []
+if HAVE_GROUPS:
+    class ValueGroup(ExceptionGroup, ValueError):   # noqa: F821 - a group that IS an instance of a leaf-like class
+        pass
+    GROUP_CLASSES = ['BaseExceptionGroup', 'ExceptionGroup', 'ValueGroup']
+    PYCLS.update({'BaseExceptionGroup': BaseExceptionGroup, 'ExceptionGroup': ExceptionGroup, 'ValueGroup': ValueGroup})  # noqa: F821
+    for _n in GROUP_CLASSES:
+        CLS_NO[_n] = len(CLS_NO)
+
+
+def make_leaves(spec):
+    """leaves of a group: class name -> instance, {'g': group class, 'l': [leaves]} -> nested group"""
+    out = []
+    for x in spec:
+        if isinstance(x, dict):
+            out.append(PYCLS[x['g']]('nested', make_leaves(x['l'])))
+        else:
+            out.append(PYCLS[x]('leaf'))
+    return out
+
+
+def gen_group(rng, depth=0):
+    """(class name, leaves) of an exception group; a BaseExceptionGroup needs a leaf outside Exception to stay one"""
+    exc_leaves = ['Exception', 'ValueError', 'LookupError', 'KeyError']
+    base_leaves = ['KeyboardInterrupt', 'SystemExit', 'GeneratorExit', 'BaseException']
+    cls = rng.choice(GROUP_CLASSES)
+    leaves = [rng.choice(exc_leaves) for _ in range(rng.randint(1, 3))]
+    if depth < 2 and rng.random() < 0.35:
+        leaves.append({'g': 'ExceptionGroup', 'l': [rng.choice(exc_leaves) for _ in range(rng.randint(1, 2))]})
+    if cls == 'BaseExceptionGroup':
+        leaves.insert(rng.randint(0, len(leaves)), rng.choice(base_leaves))
+        if depth < 2 and rng.random() < 0.3:
+            leaves.append({'g': 'BaseExceptionGroup', 'l': ['KeyboardInterrupt', rng.choice(exc_leaves)]})
+    rng.shuffle(leaves)
+    return cls, leaves
+
 
 OBS_KEYS = ['S0', 'S1', 'H0', 'H1']      # observe-timed metrics: summary plain / child, histogram plain / child
 GAUGE_KEYS = ['G0', 'G1', 'P0', 'P1']    # gauges: timing (set) plain / child, in-progress plain / child
@@ -508,6 +546,9 @@ def gen_out(rng, ids):
     ids[0] += 1
     if rng.random() < 0.55:
         return ['r', ids[0]]
+    if HAVE_GROUPS and rng.random() < 0.3:
+        cls, leaves = gen_group(rng)
+        return ['x', ids[0], cls, leaves]
     return ['x', ids[0], rng.choice(CLASSES)]
 
 
@@ -520,7 +561,9 @@ def gen_wrapper(rng, shared_ok):
         return {'t': 'I', 'g': rng.choice(['P0', 'P1']), 'use': rng.choice(['dec', 'cm', 'cmnew'])}
     return {'t': 'E', 'c': rng.choice(CNT_KEYS), 'use': rng.choice(['dec', 'cm']),
             'cls': rng.choice(['default', ['Exception'], ['ValueError'], ['LookupError'], ['KeyError'], ['BaseException'],
-                               ['ValueError', 'LookupError'], ['KeyboardInterrupt', 'KeyError'], ['SystemExit'],
+                               ['ValueError', 'LookupError'], ['KeyboardInterrupt', 'KeyError'], ['SystemExit']] + ([
+                               ['ExceptionGroup'], ['BaseExceptionGroup'], ['ExceptionGroup', 'KeyError'], ['ValueError', 'SystemExit'],
+                               ['ValueError'], ['KeyError'], ['LookupError', 'BaseExceptionGroup']] if HAVE_GROUPS else []) + [
                                ['GeneratorExit', 'Exception']])}
 
 
@@ -630,7 +673,13 @@ class Runner:
 
     def outcome_obj(self, o):
         if o[1] not in self.objs:
-            self.objs[o[1]] = Obj(o[1]) if o[0] == 'r' else PYCLS[o[2]]('exc %d' % o[1])
+            if o[0] == 'r':
+                self.objs[o[1]] = Obj(o[1])
+            elif o[2] in GROUP_CLASSES:
+                self.objs[o[1]] = PYCLS[o[2]]('exc %d' % o[1], make_leaves(o[3]))
+                assert type(self.objs[o[1]]) is PYCLS[o[2]], 'group %s collapsed to %s' % (o[2], type(self.objs[o[1]]).__name__)
+            else:
+                self.objs[o[1]] = PYCLS[o[2]]('exc %d' % o[1])
         return self.objs[o[1]]
 
     def build(self, call):
@@ -1029,6 +1078,21 @@ def corpus_exec():
         {'tree': CALL([E('K1', ['KeyError'])], out(['x', 1, 'LookupError'])), 'clock': []},
         {'tree': CALL([E('K0', ['BaseException']), E('K0', ['SystemExit']), E('K1')], rec(2, ['x', 1, 'SystemExit'])), 'clock': []},
         {'tree': CALL([E('K0')], nest([CALL([E('K0')], out(['x', 1, 'ValueError']))], ['r', 2], True)), 'clock': []},
+        # exception groups (3.11+): counted iff the GROUP OBJECT is an instance of the configured classes, whatever it contains
+    ] + ([
+        {'tree': CALL([E('K0', ['ValueError'])], out(['x', 1, 'ExceptionGroup', ['ValueError']])), 'clock': []},
+        {'tree': CALL([E('K0', ['ValueError'], 'cm')], out(['x', 1, 'ExceptionGroup', ['ValueError', 'KeyError']])), 'clock': []},
+        {'tree': CALL([E('K1')], out(['x', 1, 'BaseExceptionGroup', ['KeyboardInterrupt', 'KeyError']])), 'clock': []},
+        {'tree': CALL([E('K1', 'default', 'cm')], out(['x', 1, 'BaseExceptionGroup', ['SystemExit', 'LookupError']])), 'clock': []},
+        {'tree': CALL([E('K0')], out(['x', 1, 'ExceptionGroup', ['ValueError']])), 'clock': [], 'prior': {'K0': 2}},
+        {'tree': CALL([E('K0', ['KeyError'])], out(['x', 1, 'ExceptionGroup', ['Exception', {'g': 'ExceptionGroup', 'l': ['LookupError', {'g': 'ExceptionGroup', 'l': ['KeyError']}]}]])), 'clock': []},
+        {'tree': CALL([E('K0', ['ValueError']), E('K1', ['ExceptionGroup'], 'cm')], out(['x', 1, 'ValueGroup', ['KeyError']])), 'clock': []},
+        {'tree': CALL([E('K0', ['ExceptionGroup'])], out(['x', 1, 'ValueError'])), 'clock': []},
+        {'tree': CALL([E('K0', ['ExceptionGroup']), E('K1', ['BaseExceptionGroup'])], rec(2, ['x', 1, 'ExceptionGroup', ['ValueError']])), 'clock': []},
+        {'tree': CALL([E('K0', ['ExceptionGroup'], 'cm')], out(['x', 1, 'BaseExceptionGroup', ['GeneratorExit', 'ValueError']])), 'clock': []},
+        {'tree': CALL([E('K0', ['ValueError', 'LookupError']), E('K1', ['KeyError', 'BaseExceptionGroup'], 'cm')],
+                      nest([CALL([E('K0', ['KeyError'])], out(['x', 1, 'BaseExceptionGroup', ['KeyboardInterrupt', 'KeyError']]))], ['r', 2])), 'clock': []},
+    ] if HAVE_GROUPS else []) + [
         # all three stacked, nested calls, an earlier sibling raising skips the later ones
         {'tree': CALL([E('K0'), I('P0'), T('S0')], nest([CALL([T('S0'), I('P0')], out(['r', 1])),
                                                        CALL([E('K0', ['ValueError']), T('S0', 'new')], out(['x', 2, 'ValueError'])),
